@@ -68,9 +68,16 @@ func H_EncoderReset() {
 	var a, b encode.Encoder
 	s := dirty()
 	a.VPSet(&s)
-	vb := ivg.ViewBox{MinX: -24, MinY: -24, MaxX: 24, MaxY: 24}
+	// every combination of default / custom viewBox and palette: the all-default
+	// Reset is the one a decoder-driven transcode issues most often
+	vb := ivg.DefaultViewBox
+	if vp.Choice("vb", 2) == 1 {
+		vb = ivg.ViewBox{MinX: -24, MinY: -24, MaxX: 24, MaxY: 24}
+	}
 	pal := ivg.DefaultPalette
-	pal[0] = color.RGBA{vp.U8("r"), vp.U8("g"), vp.U8("b"), 0xff}
+	if vp.Choice("pal", 2) == 1 {
+		pal[0] = color.RGBA{vp.U8("r"), vp.U8("g"), vp.U8("b"), 0xff}
+	}
 	a.Reset(vb, pal)
 	b.Reset(vb, pal)
 	sa, sb := a.VPGet(), b.VPGet()
